@@ -61,6 +61,9 @@ fn check_budget(p: &CaoCompiledProgram, n: u64, t: Option<u64>, unbounded: Optio
         if out.result != "Timeout" {
             ctx.count("probe:timeout_inside_native_callback", 1);
         }
+        if out.host_swallowed > 0 {
+            ctx.count("probe:timeout_after_host_swallowed_a_callee_failure", 1);
+        }
     }
     match t {
         Some(t) => {
@@ -192,7 +195,7 @@ impl Check for C03 {
     }
     fn rule(&self) -> String {
         "one case = one seeded program: either a G-loop program (busy work and/or an endless loop reached through 1-3 levels of \
-         host re-entry (call0 stub), __sort/__min key functions, std.map callbacks or plain calls) or a G-alloc program with \
+         host re-entry (call0 stub called by card or as a native function value, try0 stub that swallows the callee's failure), __sort/__min key functions, std.map callbacks or plain calls) or a G-alloc program with \
          host re-entry and stdlib callbacks. T = instructions it needs (dry run). The budget N is then swept: every N in \
          1..=T+2 (seeded subset above a per-tier cap) plus T-1, T, T+1, 2T+1, 10T+1; fixed and seeded budgets for \
          non-terminating programs. Every dispatch of every nested activation is counted by the controller. A run is \
@@ -251,6 +254,7 @@ impl Check for C03 {
         vec![
             "fault:timeouts_fired".into(),
             "probe:timeout_inside_native_callback".into(),
+            "probe:timeout_after_host_swallowed_a_callee_failure".into(),
             "programs_nonterminating".into(),
             "reach:nesting_depth_2".into(),
             "reach:nesting_depth_3".into(),
